@@ -185,14 +185,16 @@ theorem within_compileDistribute (cfg : Cfg) (S D : Labware) (a : DistArgs) :
       apply within_exceptMicros
       intro ps _
       split
-      · split
-        · exact within_single trivial
-        · exact within_append (within_append (within_append (within_append
-            (within_compileRemove _ _ _ _ _ _)
-            (within_exceptMicros _ _ (fun i _ => within_single trivial)))
-            (within_compileAdd _ _ _ _ _ _ _ _))
-            (within_neutral_list (commentMicros_neutral _))) (within_compileRD _ _)
       · exact within_single trivial
+      · split
+        · split
+          · exact within_single trivial
+          · exact within_append (within_append (within_append (within_append
+              (within_compileRemove _ _ _ _ _ _)
+              (within_exceptMicros _ _ (fun i _ => within_single trivial)))
+              (within_compileAdd _ _ _ _ _ _ _ _))
+              (within_neutral_list (commentMicros_neutral _))) (within_compileRD _ _)
+        · exact within_single trivial
 
 theorem within_compileEvoAD (cfg : Cfg) (L : Labware) (l : Nat) (isAsp : Bool) (a : EvoADArgs)
     (label : Option String) (comps : Option (List (Option Comp))) :
